@@ -335,7 +335,6 @@ func (c *cTx) Fox() *Router {
 // Any attempt to write on the [ResponseWriter] will panic with the error [ErrDiscardedResponseWriter].
 func (c *cTx) Clone() Context {
 	cp := cTx{
-		rec:   c.rec,
 		req:   c.req.Clone(c.req.Context()),
 		fox:   c.fox,
 		route: c.route,
@@ -343,7 +342,18 @@ func (c *cTx) Clone() Context {
 		tsr:   c.tsr,
 	}
 
-	cp.rec.ResponseWriter = noopWriter{c.rec.Header().Clone()}
+	// Snapshot the state of the writer actually attached to this context, which is not the embedded
+	// recorder when the context was obtained from Lookup or CloneWith.
+	if rec, ok := c.w.(*recorder); ok {
+		cp.rec = *rec
+	} else {
+		cp.rec.status = c.w.Status()
+		cp.rec.size = notWritten
+		if c.w.Written() {
+			cp.rec.size = c.w.Size()
+		}
+	}
+	cp.rec.ResponseWriter = noopWriter{c.w.Header().Clone()}
 	cp.w = noUnwrap{&cp.rec}
 	if !c.tsr {
 		params := make(Params, len(*c.params))
